@@ -19,6 +19,8 @@ def program_sets(tier):
         ([[C1], [T]], None), ([[C1], [B]], None), ([[C1], [P]], None), ([[C1], [C2]], None),
         ([[C1], [SC]], None), ([[SC], [T]], None), ([[C1, T], [SC]], None), ([[C1], [SC, PO]], None),
         ([[C1], [T, B]], None), ([[C1], [T]], "takeover"),
+        # the same races while the session clock still reads 0.0 (close() before the loop has started its clock, or a coarse clock)
+        ([[C1], [T]], "clock0"), ([[C1], [C2]], "clock0"), ([[SC], [T]], "clock0"),
         # a message whose length needs the 64-bit form is still ONE write
         ([[C1], [("send", "binary", bytes(bytearray((i * 11 + 5) % 251 for i in range(66000))), False, 7)]], None),
         ([[C1], [T], [SC]], None), ([[C1], [C2], [T]], None), ([[C1], [P], [SC]], None),
